@@ -49,7 +49,7 @@ CHECKS["C06"] = dict(
 CHECKS["C05"] = dict(
     engine="E4", category="model_checking", design="4/C05",
     technique="bounded-exhaustive enumeration of request contents x CA states against a reference accept/refuse predicate; every request executed by the real CaManager on a forked copy of the state, with before/after comparison",
-    text="Every request of finite menus (all ROA deltas of <=2 / <=3 entries out of 11 additions and 3 removals covering implicit/explicit/invalid max length, unheld, v6, AS0, present with same/new comment, duplicates; ASPA set/delete/provider updates; BGPsec add with valid and corrupted CSR / delete; child add/update with six resource sets) against six CA states (empty, configured, configured-then-shrunk, configured and then the customer/router AS taken away, aggregated, mid-roll): refusal exactly when the property text demands it, refused requests change nothing but one audit record (configuration, published-object set, repository, queue compared), accepted ones are applied as a whole.",
+    text="Every request of finite menus (all ROA deltas of <=2 (quick) / <=4 (thorough) entries out of 11 additions and 3 removals covering implicit/explicit/invalid max length, unheld, v6, AS0, present with same/new comment, duplicates; ASPA set/delete/provider updates; BGPsec add with valid and corrupted CSR / delete; child add/update with six resource sets) against eight CA states (empty, configured, configured-then-shrunk, configured and then the customer/router AS taken away, aggregated, mid-roll, after activation of the new key, two parents with overlapping resources): refusal exactly when the property text demands it, refused requests change nothing but one audit record (configuration, published-object set, repository, queue compared), accepted ones are applied as a whole.",
     note="Reference predicate written from the property text; cases the text does not decide (duplicates inside a delta, no-op replacements, lenient provider-set updates, update of an existing child to nothing) are only checked for atomicity. Trusted: fork-copy isolation of the state.")
 
 CHECKS["C14"] = dict(
@@ -85,7 +85,7 @@ CHECKS["C16"] = dict(
 CHECKS["C13"] = dict(
     engine="E4", category="model_checking", design="4/C13",
     technique="exhaustive enumeration of (route x caller x addressed CA x testbed mode) against the daemon's real HTTP service (authentication provider chain, dispatch, permission gates) over an in-memory connection, compared with a reference evaluation of the route table and the role semantics; the route table is checked against the dispatch sources at run time",
-    text="Every route of the table (all methods the dispatch code serves) x every caller - anonymous, wrong token, admin token, unmapped system user, and a system user mapped to each of ~140 (quick) / ~180 (thorough) roles: full, none, login only, and for every permission P: all-but-P, only-P, login+P, login+ca-read+P, login+pub-admin+P, unscoped and scoped to a CA - x addressed CA (the scoped one / another one): served exactly when the reference grants login (versioned API), the sub-tree gate and the operation's permission for that CA; refused requests (sent with a valid body) leave the stored state byte-for-byte unchanged; without credentials only the open endpoints are served; testbed self-service is served only in testbed mode; the CA list and the bulk issues list show a caller exactly the CAs it may read.",
+    text="Every route of the table (all methods the dispatch code serves) x every caller - anonymous, wrong token, admin token, unmapped system user, and a system user mapped to each of ~140 (quick) / ~650 (thorough) roles: full, none, login only, and for every permission P: all-but-P, only-P, login+P, login+ca-read+P, login+pub-admin+P, unscoped and scoped to a CA; thorough adds scoping to the other CA, to both CAs, to a list naming an unknown CA, and every pair of permissions on top of login, blanket and scoped - x addressed CA (the scoped one / another one): served exactly when the reference grants login (versioned API), the sub-tree gate and the operation's permission for that CA; refused requests (sent with a valid body) leave the stored state byte-for-byte unchanged; without credentials only the open endpoints are served; testbed self-service is served only in testbed mode; the CA list and the bulk issues list show a caller exactly the CAs it may read.",
     note="Roles with both a blanket and per-CA grants that differ (Role::complex) cannot be expressed in the configuration and are not enumerated. OpenID Connect and config-file users are C20's subject; here role-bearing callers use the Unix-socket provider (peer user set as the socket listener does). Served = any status other than 401/403.")
 
 CHECKS["C20"] = dict(
